@@ -2,8 +2,8 @@ import Mkts.Lemmas.Sql
 import Mkts.Props.C11
 /-!
 Push-down of Epoch bounds (C19): the rows the planner's range restriction drops are rows the
-post-filter would drop anyway — provided the bounds are nanosecond literals and an inclusive upper
-bound does not sit exactly on a stored bar.  Built on C11 (`inRange = inRangeTime` on valid slots).
+post-filter would drop anyway (the pushed-down instant is the converted literal, moved one
+nanosecond inwards for an exclusive bound).  Built on C11 (`inRange = inRangeTime` on valid slots).
 -/
 namespace Mkts.Sql
 open Mkts.Store Mkts.Time Mkts.Bytes Mkts.Props Mkts.Props.C11
@@ -43,24 +43,10 @@ theorem convUnit_sec (sec : Int) (h : NsRange sec) : convUnit sec = sec * 100000
 theorem convUnit_ns (x : Int) (h : x > threshold) : convUnit x = x := by
   unfold convUnit; exact if_pos h
 
-theorem stable_of_ns (x : Int) (h : x > threshold) : Stable x := by
-  unfold Stable; rw [convUnit_ns x h, convUnit_ns x h]
-
-/-- what the partial theorem asks of the Epoch predicate: every literal is in nanosecond form
-    (datetime strings always are), and an inclusive upper bound is not the stamp of a stored row -/
-structure EpochOK (rows : List Row) (sp : SP) : Prop where
-  ns : ∀ l, (sp.equal = some l ∨ sp.min = some l ∨ sp.max = some l) → l.asI64 > threshold
-  offEdge : sp.inclMax = true → ∀ m, sp.max = some m → ∀ r ∈ rows, r.sec * 1000000000 ≠ m.asI64
-
-theorem EpochOK.stable {rows : List Row} {sp : SP} (h : EpochOK rows sp) : sp.EpochStable :=
-  ⟨fun l hl => stable_of_ns _ (h.ns l (Or.inl hl)), fun l hl => stable_of_ns _ (h.ns l (Or.inr (Or.inl hl))),
-   fun l hl => stable_of_ns _ (h.ns l (Or.inr (Or.inr hl)))⟩
-
 /-- a valid slot whose row passes the Epoch tests lies inside the pushed-down range -/
-theorem inRange_of_keepEpoch (tf : Int) (g : Group) (kv : (Int × Int) × Bytes) (rows : List Row)
+theorem inRange_of_keepEpoch (tf : Int) (g : Group) (kv : (Int × Int) × Bytes)
     (htf : 0 < tf) (hd : tf ≠ dayNs) (hsec : tf % 1000000000 = 0)
-    (hv : ValidSlot tf kv.1.1 kv.1.2) (hmem : rowOfSlot tf kv ∈ rows) (hr : NsRange (rowOfSlot tf kv).sec)
-    (hok : ∀ sp, g.get "Epoch" = some sp → EpochOK rows sp)
+    (hv : ValidSlot tf kv.1.1 kv.1.2) (hr : NsRange (rowOfSlot tf kv).sec)
     (hkeep : (match g.get "Epoch" with | none => true | some sp => keepEpoch sp (rowOfSlot tf kv).sec) = true) :
     inRange tf ⟨(pushdown g).1, (pushdown g).2, none⟩ kv.1.1 kv.1.2 = true := by
   rw [C11_fixed_slot tf _ _ _ htf hd hv]
@@ -69,7 +55,6 @@ theorem inRange_of_keepEpoch (tf : Int) (g : Group) (kv : (Int × Int) × Bytes)
   | none => simp
   | some sp =>
     rw [hg] at hkeep
-    have ok := hok sp hg
     simp only [keepEpoch, Bool.and_eq_true] at hkeep
     obtain ⟨_, hmin, hmax⟩ := hkeep
     have hstamp := stamp_ns tf kv hd hsec
@@ -81,18 +66,15 @@ theorem inRange_of_keepEpoch (tf : Int) (g : Group) (kv : (Int × Int) × Bytes)
         simp only [Option.map_some, decide_eq_true_eq]
         rw [hm] at hmin
         simp only [optKeep] at hmin
-        rw [convUnit_sec _ hr, hstamp, convUnit_ns _ (ok.ns m (Or.inr (Or.inl hm)))] at hmin
-        -- slot start of the pushed-down instant ≤ the instant itself
-        have hst : (m.asI64 + if sp.inclMin = true then 1 else 0) ≤ slotStart tf kv.1.1 kv.1.2 + 1 := by
+        rw [convUnit_sec _ hr, hstamp] at hmin
+        have hst : (convUnit m.asI64 + if sp.inclMin = true then 0 else 1) ≤ slotStart tf kv.1.1 kv.1.2 := by
           cases hi : sp.inclMin with
           | true => simp only [hi, if_true, keepInt, decide_eq_true_eq] at hmin ⊢; omega
           | false =>
             simp only [hi, keepInt, decide_eq_true_eq, Bool.false_eq_true, if_false] at hmin ⊢; omega
-        generalize (m.asI64 + if sp.inclMin = true then 1 else 0) = st at hst ⊢
+        generalize (convUnit m.asI64 + if sp.inclMin = true then 0 else 1) = st at hst ⊢
         have hs := C30.C30_interval utc C30.utc_coherent st tf htf hd
         rw [slotStart_eq _ _ _ hd] at hs
-        have hA := slotStart_mod tf (localYear utc st) (timeToIndex utc st tf) hsec
-        have hB := slotStart_mod tf kv.1.1 kv.1.2 hsec
         have h1 := hs.1
         omega
     · cases hm : sp.max with
@@ -101,11 +83,9 @@ theorem inRange_of_keepEpoch (tf : Int) (g : Group) (kv : (Int × Int) × Bytes)
         simp only [Option.map_some, decide_eq_true_eq]
         rw [hm] at hmax
         simp only [optKeep] at hmax
-        rw [convUnit_sec _ hr, hstamp, convUnit_ns _ (ok.ns m (Or.inr (Or.inr hm)))] at hmax
+        rw [convUnit_sec _ hr, hstamp] at hmax
         cases hi : sp.inclMax with
         | true =>
-          have hne := ok.offEdge hi m hm _ hmem
-          rw [hstamp] at hne
           simp only [hi, if_true, keepInt, decide_eq_true_eq] at hmax
           simp only [if_true]
           omega
@@ -117,8 +97,7 @@ theorem inRange_of_keepEpoch (tf : Int) (g : Group) (kv : (Int × Int) × Bytes)
 /-- filtering the pushed-down read gives the same rows as filtering the unrestricted read -/
 theorem filter_pushdown (tf : Int) (hist : List (List Row)) (cols : List ColDef) (g : Group)
     (htf : 0 < tf) (hd : tf ≠ dayNs) (hsec : tf % 1000000000 = 0)
-    (hr : ∀ r ∈ query tf (applyHist tf hist) ⟨none, none, none⟩, NsRange r.sec)
-    (hok : ∀ sp, g.get "Epoch" = some sp → EpochOK (query tf (applyHist tf hist) ⟨none, none, none⟩) sp) :
+    (hr : ∀ r ∈ query tf (applyHist tf hist) ⟨none, none, none⟩, NsRange r.sec) :
     (query tf (applyHist tf hist) ⟨(pushdown g).1, (pushdown g).2, none⟩).filter (keepRow cols g) =
       (query tf (applyHist tf hist) ⟨none, none, none⟩).filter (keepRow cols g) := by
   have hmemAll : ∀ kv ∈ sortedSlots (applyHist tf hist),
@@ -143,6 +122,6 @@ theorem filter_pushdown (tf : Int) (hist : List (List Row)) (cols : List ColDef)
       unfold keepRow at hk
       simp only [Bool.and_eq_true] at hk
       exact hk.1
-    rw [inRange_of_keepEpoch tf g kv _ htf hd hsec hv hm (hr _ hm) hok hE, hall]
+    rw [inRange_of_keepEpoch tf g kv htf hd hsec hv (hr _ hm) hE, hall]
 
 end Mkts.Sql
